@@ -158,7 +158,7 @@ def box_scale(box):
     return float(np.sqrt((b * b).sum(-1)).max())
 
 
-def pbc_tol(box, M, eps, k=64.0):
+def pbc_tol(box, M, eps, k=16.0):
     """Bound for a float computation that goes coordinates -> fractions -> coordinates
     with inputs of magnitude M in a box of edge L and condition number kappa."""
     return k * eps * (M + box_scale(box)) * box_cond(box)
